@@ -192,14 +192,14 @@ static void sp_leak_seq(const char *name, void (*seq)(void), const char *what) {
   if (grew == 3) sw_violation(name, "leak", "", what); }
 
 static const int sp_M[] = { -2, -1, 0, 1, 2, 3, 4 };
-static const double sp_CE[] = { -1.0, 0.0, 0.5, 3.0, 8.0, 17.4, 100.0, /* codes: energies aimed at the no-reflection cut-off of the reflection */ -101, -102, -103, -104, -105, -106 };
+static const double sp_CE[] = { -1.0, 0.0, 0.5, 3.0, 8.0, 17.4, 100.0, /* codes: energies aimed at the no-reflection cut-off of the reflection */ -101, -102, -103, -104, -105, -106, -107, -108, -109 };
 /* the energy below which (h k l) does not reflect is hc/(2 d): the exact double, its neighbours, and the same quantity rounded along other paths */
 static double sp_energy(Crystal_Struct *c, int i, int j, int k, double code) { double d, E0;
   if (code > -100.0) return code;
   d = c ? Crystal_dSpacing(c, i, j, k, NULL) : 0.0; if (!(d > 0.0)) return 8.0;
   E0 = KEV2ANGST / (2.0 * d);
   switch ((int)code) { case -101: return E0; case -102: return nextafter(E0, INFINITY); case -103: return nextafter(E0, 0.0);
-    case -104: return (KEV2ANGST / d) / 2.0; case -105: return 0.5 * KEV2ANGST / d; default: return E0 * (1.0 + 1e-12); } }
+    case -104: return (KEV2ANGST / d) / 2.0; case -105: return 0.5 * KEV2ANGST / d; case -107: return E0 * (1.0 - 1e-9); case -108: return E0 * (1.0 - 3e-7); case -109: return E0 * (1.0 - 1e-12); default: return E0 * (1.0 + 1e-12); } }
 static const double sp_DB[] = { -1.0, 0.0, 0.5, 1.0 };
 static const double sp_RL[] = { 0.0, 0.5, 1.0, 1.5, -1.0 };
 static const int sp_FL[] = { -1, 0, 1, 2, 3 };
